@@ -3,6 +3,13 @@
 // lines:  classmap <wide 0|1> <hex bytes> <cid.x,cid.x,…>     Silf::readClassMap on the bytes (exact-size buffer), then for every probe
 //            with cid < numClasses (what the code loader guarantees) or cid > numClasses: getClassGlyph(cid, x) and findClassIndex(cid, x)
 //            -> fault | E<code> | ok <numClasses>,<numLinear> O:<digest offsets> D:<digest data> G:<v,…> F:<v,…>
+//         faceinfo                          -> <numGlyphs> <numAttrs> <hasBoxes 0|1> of the base font's glyph cache
+//         silf <version> <numGlyphs> <numAttrs> <hasBoxes> <hex bytes>   (the three numbers must be what faceinfo answers)  Silf::readGraphite on the bytes (exact-size buffer) as one sub-table of a Silf table of that version
+//            -> fault | E<code> | P<i> E<code> (pass i: range or layout error) | P<i> later (refused further on in pass i)
+//             | ok <numPasses>,<sPass>,<pPass>,<jPass>,<bPass>,<flags>,<aPseudo>,<aBreak>,<aBidi>,<aMirror>,<aPassBits>,<numJusts>,<aLig>,<aUser>,
+//                  <iMaxComp>,<dir>,<aCollision>,<gEndLine>,<numPseudo> PS:<digest pseudos> C:<numClasses>,<numLinear> P:<digest numRules,numStates per pass>
+//         silftable <numGlyphs> <numAttrs> <hasBoxes> <hex bytes>        Face::readGraphite with the bytes (exact-size buffer) as the Silf table of the base font
+//            -> fault | notable | noglyphs | nofeat | E<code> | P<i> … | ok <numSilf> | <sub-table> … | nopasses <numSilf> | …
 //         collok <passtype>                 -> 0|1   (may a pass of this type carry collision flags in this font?)
 //         pass <subtable_base> <passtype> <collok> <hex bytes>       (collok must be what `collok <passtype>` answers)
 //            -> fault | E<code> (one of the layout errors) | ranges (E_BADRANGE) | states E<code> (E_BADSTATE, E_BADRULEMAPPING)
@@ -19,6 +26,8 @@
 #include "inc/Rule.h"
 #include "inc/Error.h"
 #include "inc/GlyphCache.h"
+#include "inc/FileFace.h"
+#include "inc/TtfTypes.h"
 #undef private
 #undef protected
 #include <graphite2/Font.h>
@@ -40,6 +49,57 @@ static bool layout_code(int c) {
         return true;
     default: return false;
     }
+}
+
+// an accepted sub-table: the numbers `Silf::readGraphite` keeps
+static std::string describe(const Silf *sf) {
+    char buf[512];
+    snprintf(buf, sizeof buf, "%u,%u,%u,%u,%u,%u,%u,%u,%u,%u,%u,%u,%u,%u,%u,%u,%u,%u,%u", (unsigned)sf->m_numPasses, (unsigned)sf->m_sPass,
+             (unsigned)sf->m_pPass, (unsigned)sf->m_jPass, (unsigned)sf->m_bPass, (unsigned)sf->m_flags, (unsigned)sf->m_aPseudo,
+             (unsigned)sf->m_aBreak, (unsigned)sf->m_aBidi, (unsigned)sf->m_aMirror, (unsigned)sf->m_aPassBits, (unsigned)sf->m_numJusts,
+             (unsigned)sf->m_aLig, (unsigned)sf->m_aUser, (unsigned)sf->m_iMaxComp, (unsigned)sf->m_dir, (unsigned)sf->m_aCollision,
+             (unsigned)sf->m_gEndLine, (unsigned)sf->m_numPseudo);
+    std::vector<unsigned> ps, pp;
+    for (unsigned k = 0; k < sf->m_numPseudo; ++k) { ps.push_back(sf->m_pseudos[k].uid); ps.push_back(sf->m_pseudos[k].gid); }
+    for (unsigned k = 0; k < sf->m_numPasses; ++k) { pp.push_back(sf->m_passes[k].m_numRules); pp.push_back(sf->m_passes[k].m_numStates); }
+    std::string out = buf;
+    out += " PS:" + digestv(ps);
+    snprintf(buf, sizeof buf, " C:%u,%u", (unsigned)sf->m_nClass, (unsigned)sf->m_nLinear); out += buf;
+    out += " P:" + digestv(pp);
+    return out;
+}
+
+// a refusal: the loader's error code, with the pass number where the pass loader gave it
+static std::string refusal(const Face *face) {
+    char buf[64];
+    int c = face->m_error;
+    unsigned pass = face->m_errcntxt >> 16;
+    if (face->m_error == 0xFFFFFFFFu) return "E4294967295";       // ERROROFFSET used as an error code by readClassMap
+    if (c <= E_BADPASSEND || c == E_BADACOLLISION || c == E_BADSILFVERSION) {
+        if (c == E_BADPASSSTART || c == E_BADPASSEND) snprintf(buf, sizeof buf, "P%u E%d", pass, c);
+        else snprintf(buf, sizeof buf, "E%d", c);
+    }
+    else if (layout_code(c)) snprintf(buf, sizeof buf, "P%u E%d", pass, c);
+    else snprintf(buf, sizeof buf, "P%u later", pass);
+    return buf;
+}
+
+// the glyph-cache numbers a line carries for the model must be the base font's
+static bool face_matches(const Face *face, const std::vector<std::string> &w, size_t at) {
+    return strtoul(w[at].c_str(), 0, 10) == face->glyphs().numGlyphs() && strtoul(w[at + 1].c_str(), 0, 10) == face->glyphs().numAttrs()
+        && (strtoul(w[at + 2].c_str(), 0, 10) != 0) == face->glyphs().hasBoxes();
+}
+
+struct TableCtx { FileFace *ff; const uint8_t *silf; size_t silf_len; };
+static const void *ctx_get_table(const void *h, unsigned int name, size_t *len) {
+    const TableCtx *c = static_cast<const TableCtx *>(h);
+    if (name == Tag::Silf) { *len = c->silf_len; return c->silf; }
+    return (*FileFace::ops.get_table)(c->ff, name, len);
+}
+static void ctx_rel_table(const void *h, const void *p) {
+    const TableCtx *c = static_cast<const TableCtx *>(h);
+    if (p == c->silf) return;
+    (*FileFace::ops.release_table)(c->ff, p);
 }
 
 int main(int argc, char **argv) {
@@ -84,6 +144,49 @@ int main(int argc, char **argv) {
                 if (g_faults) out = "fault"; else out += g + f;
             }
             delete sf;
+        } else if (w.size() == 1 && w[0] == "faceinfo") {
+            snprintf(buf, sizeof buf, "%u %u %u", (unsigned)face->glyphs().numGlyphs(), (unsigned)face->glyphs().numAttrs(), face->glyphs().hasBoxes() ? 1u : 0u);
+            out = buf;
+        } else if ((w.size() == 6 && w[0] == "silf" && !face_matches(face, w, 2)) || (w.size() == 5 && w[0] == "silftable" && !face_matches(face, w, 1))) {
+            out = "bad-op";                  // the line was made for another base font
+        } else if (w.size() == 6 && w[0] == "silf" && parse_hex(w[5], b)) {
+            // Silf::readGraphite on exactly these bytes, with the glyph cache of the base font
+            unsigned long version = strtoul(w[1].c_str(), 0, 10);
+            Silf *sf = new Silf();
+            Exact e(b);
+            face->m_error = 0; face->m_errcntxt = 0;
+            bool ok = sf->readGraphite(e.p, b.size(), *face, (uint32)version);
+            if (g_faults) out = "fault";
+            else if (!ok) out = refusal(face);
+            else out = "ok " + describe(sf);
+            delete sf;
+        } else if (w.size() == 5 && w[0] == "silftable" && parse_hex(w[4], b)) {
+            // Face::readGraphite on exactly these bytes as the Silf table; every other table comes from the base font's file
+            Exact e(b);
+            FileFace *ff = new FileFace(argv[1]);
+            TableCtx ctx = { ff, e.p, b.size() };
+            const gr_face_ops ops = { sizeof(gr_face_ops), &ctx_get_table, &ctx_rel_table };
+            Face *f = new Face(&ctx, ops);
+            {
+                Face::Table silf(*f, Tag::Silf, 0x00050000);
+                if (!silf) out = "notable";
+                else if (!f->readGlyphs(0)) out = "noglyphs";
+                else if (!f->readFeatures()) out = "nofeat";
+                else {
+                    f->m_error = 0; f->m_errcntxt = 0;
+                    bool ok = f->readGraphite(silf);
+                    if (g_faults) out = "fault";
+                    else if (!ok && f->m_error) out = refusal(f);
+                    else {
+                        snprintf(buf, sizeof buf, "%s %u", ok ? "ok" : "nopasses", (unsigned)f->m_numSilf);
+                        out = buf;
+                        for (unsigned k = 0; k < f->m_numSilf; ++k) out += " | " + describe(&f->m_silfs[k]);
+                    }
+                }
+            }
+            delete f;
+            delete ff;
+            if (g_faults) out = "fault";
         } else if (w.size() == 2 && w[0] == "collok") {
             int pt = atoi(w[1].c_str());
             bool ok = pt >= PASS_TYPE_POSITIONING && silf->aCollision() && face->glyphs().hasBoxes() && (silf->flags() & 0x20);
